@@ -241,3 +241,48 @@ def bool_selects(fns):
         if n:
             out[f['id']] = n
     return out
+
+
+# ---------------------------------------------------------------------------------------------------------------------
+# bool diamonds.  `matches!(x, P)`, `a && b`, `a || b` are lowered to "assign true/false to a temporary in two blocks, merge,
+# switch on the temporary".  The merge block decides nothing: each assigning block is sent straight to the target its
+# constant selects, so that the real condition's edges dominate what they guard.
+def bool_diamonds(fns):
+    out = {}
+    for f in fns:
+        blocks = f['blocks']
+        n = 0
+        for _ in range(4):
+            changed = False
+            preds = {}
+            for bi, b in enumerate(blocks):
+                if b['cleanup']:
+                    continue
+                t = b['term']
+                ss = [t['target']] if t['k'] in ('goto', 'call', 'drop', 'assert') and t.get('target') is not None and t.get('target', -1) >= 0 else \
+                    ([tg for _, tg in t['targets']] + [t['otherwise']] if t['k'] == 'switch' else [])
+                for s in ss:
+                    preds.setdefault(s, []).append(bi)
+            for m, b in enumerate(blocks):
+                t = b['term']
+                if b['cleanup'] or b['stmts'] or t['k'] != 'switch' or t['discr']['k'] not in ('copy', 'move') or t['discr']['place']['p']:
+                    continue
+                c = t['discr']['place']['l']
+                if f['locals'][c]['ty'] != 'bool':
+                    continue
+                tmap = dict((v, tg) for v, tg in t['targets'])
+                for p in list(preds.get(m, [])):
+                    pb = blocks[p]
+                    if pb['cleanup'] or pb['term']['k'] != 'goto' or pb['term']['target'] != m or not pb['stmts']:
+                        continue
+                    st = pb['stmts'][-1]
+                    if st['lhs']['p'] or st['lhs']['l'] != c or st['rv']['k'] != 'use' or st['rv']['a']['k'] != 'const' or st['rv']['a'].get('val') not in (0, 1):
+                        continue
+                    pb['term'] = dict(pb['term'], target=tmap.get(st['rv']['a']['val'], t['otherwise']), bool_threaded=True)
+                    n += 1
+                    changed = True
+            if not changed:
+                break
+        if n:
+            out[f['id']] = n
+    return out
